@@ -199,6 +199,26 @@ def gen_case(rng, tier, index):
             rows = 1 if d["kind"] == "trough" else d["rows"]
             d["names"] = {f"{r},{c}": f"{d['name']}@{r}.{c}" for r in range(rows) for c in range(d["columns"]) if d["initial"][r][c] > 0}
     gen.sync_twins(wt)
+    for d in wt:
+        # limits and / or initial volumes given in single precision (numpy.float32 scalars, a float32 array): numbers
+        # like any other - the description holds their exact values, so every oracle keeps computing exactly
+        if rng.random() < 0.15 and not d.get("shares_initial_array_with") and not d.get("array_is_shared"):
+            mn, mx = float(np.float32(d["min_volume"])), float(np.float32(d["max_volume"]))
+            if 0 <= mn < mx and math.isfinite(mx):
+                how = rng.choice(["limits", "limits", "initial", "both"])
+                if how in ("limits", "both"):
+                    d["min_volume"], d["max_volume"] = mn, mx
+                    d["limits_as"] = "float32"
+                if how in ("initial", "both"):
+                    d["initial_as"] = "float32"
+                    d["initial"] = [[float(np.float32(v)) for v in row] for row in d["initial"]]
+                top = d["max_volume"]
+                if float(np.float32(top)) > top:
+                    top = float(np.nextafter(np.float32(top), np.float32(0)))
+                d["initial"] = [[(v if v <= d["max_volume"] else top) for v in row] for row in d["initial"]]
+                if d.get("names") is not None:
+                    rows = 1 if d["kind"] == "trough" else d["rows"]
+                    d["names"] = {f"{r},{c}": f"{d['name']}@{r}.{c}" for r in range(rows) for c in range(d["columns"]) if d["initial"][r][c] > 0}
     n_ops = rng.choice([5, 10, 20, 40, 40, 80, 200 if tier == "thorough" else 60])
     return {"worklist": wl, "worktable": wt, "n_ops": n_ops, "opseed": rng.getrandbits(48), "profile": "limits", "vclass": vclass}
 
